@@ -298,7 +298,7 @@ def rot0 (m : M6 α) : QL α :=
     `false`: the tests as they are in /repo, `ABS(tst2 - tst1) < 1.0e-14` (absolute threshold);
     `true` : the proposed fix `ABS(tst2 - tst1) <= 1.0e-14 * tst1` (relative threshold).
     The theorems of `Props/C16.lean` are proved for both settings. -/
-def relativeConvergence : Bool := false
+def relativeConvergence : Bool := true
 
 /-- `tst2 = tst1 + ABS(e[mm]); ABS(tst2 - tst1) < 1.0e-14` -/
 def QL.isSmall (st : QL α) (mm : Nat) : Bool :=
